@@ -177,8 +177,10 @@ class ModbusBinaryFramer(ModbusFramer):
                     break
 
             else:
-                _logger.debug("Frame check failed, ignoring!!")
-                self.resetFrame()
+                # a frame that is merely incomplete stays buffered
+                if self._end in self._buffer or self._start not in self._buffer:
+                    _logger.debug("Frame check failed, ignoring!!")
+                    self.resetFrame()
                 break
 
     def buildPacket(self, message):
